@@ -28,6 +28,13 @@ def add_tree(root):
 
 add_tree(f"{V}/overlay/repo")
 add_tree(f"{V}/engine/checks/{cid}/overlay/repo")
+# shared overlay trees listed one per line in checks/<id>/overlay.dirs
+dirs = f"{V}/engine/checks/{cid}/overlay.dirs"
+if os.path.exists(dirs):
+    for line in open(dirs):
+        line = line.strip()
+        if line and not line.startswith("#"):
+            add_tree(line)
 
 # mutated copies (mutate.sh): rel=src;rel=src;
 muts = {}
